@@ -254,6 +254,11 @@ class Run(object):
           self.v('C09.gap-too-long', 'reconnection attempts to %s:%d at %s: gap %.2f s exceeds the maximum interval %.0f s'
                  % (addr[0], addr[1], [round(t - T0, 2) for t in ts], g, MAXI))
           break
+        if p.get('concurrency', 1) > 1 and p.get('mode') == 'stall':
+          # (with a second pooled connection and hanging connects, connects made by the replaced pool when its own hung attempt
+          # finally times out mix into the log; they are not part of the resurrector's retry series, so the growth of the gaps
+          # cannot be judged from the connect log alone in these histories)
+          continue
         if i > 0 and g < gaps[i - 1] - 1e-3:
           self.v('C09.gap-shrinks', 'reconnection attempts to %s:%d during one down period at %s: gaps %r are not non-decreasing'
                  % (addr[0], addr[1], [round(t - T0, 2) for t in ts], gaps))
